@@ -99,13 +99,21 @@ def gen_case(rng, tier):
     # probe liveness: a probe copy that fails synchronously (socket / connect / sendto error) must
     # not leave the server marked "probe pending": after the retry delay it is probed again
     syncfail = transport == "udp" and n >= 2 and rng.random() < 0.3
+    # configured option values: retry chance 0 DISABLES probing (no probe copy ever), the retry delay is
+    # the configured one - long runs of fresh queries after both the configured and the default delay
+    # (5 s) have passed show whether library defaults (chance 10) are used instead
+    nochance = not syncfail and n >= 2 and rng.random() < 0.12
     if syncfail:
         delay = rng.choice([0, 100, 100, 5000])
         cfg.append("failover=1,%d" % delay)
+    elif nochance:
+        delay = rng.choice([0, 1, 5000, 2147483647])
+        cfg.append("failover=0,%d" % delay)
     elif rng.random() > 0.25:
-        chance = rng.choice([0, 1, 1, 1, 2, 3, 10])
-        delay = rng.choice([0, 0, 100, 5000, 5000, 30000, 120000])
+        chance = rng.choice([0, 1, 1, 1, 2, 3, 10, 10, 65535])
+        delay = rng.choice([0, 0, 1, 100, 5000, 5000, 30000, 120000, 2147483647])
         cfg.append("failover=%d,%d" % (chance, delay))
+    delay = min(delay, 10 ** 7)          # for the clock advances below
     nev = rng.choice([4, 8, 12, 20, 30]) if tier != "thorough" else rng.choice([8, 20, 40, 80])
     mood = rng.random()
     p_fail = 0.15 if mood < 0.3 else (0.45 if mood < 0.8 else 0.8)
@@ -142,7 +150,17 @@ def gen_case(rng, tier):
                 "adv %d" % rng.choice([delay, delay, delay + 1, max(0, delay - 1), 60000]), "proct",
                 "send 3 q3.example IN A rd", "rspall an=A:1.1.1.1", "proc"]
         tok = 3
-    reentry = not syncfail and transport == "udp" and n >= 2 and rng.random() < 0.4
+    if nochance:
+        # a server fails while another stays healthy, time passes, then dozens of fresh queries
+        tok += 1
+        ops += ["send %d q%d.example IN A rd" % (tok, tok)] + flush + ["rsp xl rcode=%s" % rng.choice(["SERVFAIL", "REFUSED"]), "proc"] + flush
+        ops += ["rspall an=A:1.1.1.1", "proc"] + flush + ["rspall an=A:1.1.1.1", "proc"] + flush
+        ops += ["adv %d" % (max(delay, 5000) + rng.choice([0, 1, 1000])), "proct"] + flush
+        for _ in range(rng.choice([30, 40, 50])):
+            tok += 1
+            ops += ["send %d q%d.example IN A rd" % (tok, tok)] + flush + ["rspall an=A:1.1.1.1", "proc"] + flush
+        pending = 0
+    reentry = not syncfail and not nochance and transport == "udp" and n >= 2 and rng.random() < 0.4
     if reentry:
         # queries 1 and 2 in flight; 2 fails (once without rotation: the first server is demoted;
         # once on every server with rotation: all servers have one failure); then 1 is answered
